@@ -417,6 +417,29 @@ def _scen_job(choice):
     hops = int(env.get_minimum_hops())
     if not goal_keys:
         return out
+    # the bound may also be asked for the FIRST time late: on another environment object, after the whole reference plan
+    # (scans included) has been played. Whatever it advertises then has to bound goal-reaching episodes as well.
+    try:
+        from .seams import draw_values as _dv
+        env_late = NASimEnv(ctx.scenario)
+        env_late.reset()
+        _ms, _plan = model.closure_plan()
+        _idx = {}
+        for i, m in enumerate(ctx.mactions):
+            if m is not None:
+                _idx[(m["type"], m["name"], tuple(m["target"]))] = i
+        for act in _plan:
+            i = _idx.get((act["type"], act["name"], tuple(act["target"])))
+            if i is None:
+                break
+            ctx.seam.arm(_dv(act["prob"])["below"])
+            env_late.step(i)
+        ub_late = float(env_late.get_score_upper_bound())
+        env_late.reset()
+        ub_late2 = float(env_late.get_score_upper_bound())
+    except Exception:
+        ub_late = ub_late2 = ub
+    ub_min = min(ub, ub_late, ub_late2)
     # every non-state-changing transition must lose reward in this domain (so loops are never on an optimal path)
     for k, edges in res["graph"].items():
         for a_idx, side, k2, r, done, succ in edges:
@@ -430,10 +453,12 @@ def _scen_job(choice):
         return out
     if best >= ub - 1 - 1e-9:
         out["nontrivial"] += 1
-    if best > ub + 1e-9:
+    if best > ub_min + 1e-9:
         out["violations"].append({"property": "C20", "kind": "optimal_goal_reaching_episode_beats_advertised_score_upper_bound",
                                   "engine": "state_graph_dp", "choice": choice, "scenario": spec_to_json(spec),
                                   "detail": {"optimal_episode_reward": best, "advertised_upper_bound": ub,
+                                             "advertised_after_an_episode_on_another_object": ub_late,
+                                             "advertised_after_that_and_reset": ub_late2,
                                              "advertised_minimum_hops": hops}})
     # a goal-reaching episode may also be the SECOND episode of an environment object: play the model's plan
     # through step(), reset(), and take the state the environment then starts from as the root
